@@ -358,7 +358,7 @@ func checkAdminPredicates(c *km.Ctx, s *km.Sem) {
 				r.Add("R-C08-2", km.FuncName(fn), "return merged verdict", posOf(c, rc.Ret), reqOf["merged"], clipS(rc.State.String(), 300), ok)
 				continue
 			}
-			kind, _ := judge(v, km.Conj{})
+			kind, _ := judge(v, c.F.NewConj())
 			if kind == "unrecognised" {
 				r.Add("R-C08-2", km.FuncName(fn), "return (unrecognised source)", posOf(c, rc.Ret), reqOf[kind], km.ValStr(v), false)
 				continue
